@@ -13,7 +13,8 @@ REQUIRED_THEOREMS = ["PycModel.C15.repr_mapCoords"]
 LEVEL = "proof"
 TRUSTED = ["eval, pickle and copy.deepcopy are the interpreter's: exercised on the real objects, not modelled",
            "Python's repr of str is modelled for ASCII strings only (pyReprStr); non-ASCII ASTs are checked on the real code but not compared with the model"]
-ASSUMPTIONS = ["partial: the theorem covers the pycparser-specific __repr__ (coordinate-independence for all trees); the rebuild itself is checked by execution"]
+ASSUMPTIONS = ["the interpreter's nesting limits (RecursionError of eval / pickle / deepcopy, and the compiler's 'too many nested parentheses' for eval of a repr nested deeper than 200) are resource limits outside the property, as the RecursionError exemption of C06: trees nested that deep are skipped",
+               "partial: the theorem covers the pycparser-specific __repr__ (coordinate-independence for all trees); the rebuild itself is checked by execution"]
 
 EXTRA = [
     'char *s = "quote \\" backslash \\\\ tab \\t";',
@@ -79,6 +80,10 @@ def check(text):
         back = eval(rp, ns)
     except RecursionError:
         return (rp, None)
+    except SyntaxError as e:
+        if "too many nested parentheses" in str(e):      # the interpreter's own nesting limit (like RecursionError)
+            return (rp, None)
+        return (rp, "eval(repr()) raised SyntaxError: %s" % e)
     except Exception as e:  # noqa
         return (rp, "eval(repr()) raised %s: %s" % (type(e).__name__, e))
     if not same(ast, back, False):
